@@ -1,18 +1,30 @@
 package main
 
 import (
+	"bufio"
+	"bytes"
 	"encoding/json"
+	"errors"
 	"fmt"
 	"io"
+	"math"
+	"math/big"
+	"net"
 	"net/http"
 	"net/http/httptest"
 	"net/url"
+	"reflect"
+	"sort"
+	"strconv"
 	"strings"
+	"sync"
 	"time"
+	"unsafe"
 
 	"github.com/tmpim/casket"
 	_ "github.com/tmpim/casket/caskethttp"
 	"github.com/tmpim/casket/caskethttp/httpserver"
+	"github.com/tmpim/casket/caskethttp/limits"
 	"github.com/tmpim/casket/caskettls"
 )
 
@@ -33,6 +45,21 @@ type c17In struct {
 	Other   [][2]int64 `json:"other,omitempty"` // timeout: values for the three OTHER fields of each site (set?, value), flattened 3 per site
 	Field   int        `json:"field,omitempty"`
 	Group   [][2]int64 `json:"group,omitempty"` // (set?, value)
+
+	// read64 / count: limits.MaxBytesReader called directly with any int64 limit
+	Limit   int64      `json:"limit,omitempty"`
+	Answers [][2]int64 `json:"answers,omitempty"` // count: (claimed count, error code 0 none / 1 EOF / 3 other)
+	// parse: form 0 `limits S`, 1 `limits { header S }`, 2 `limits { body /p S }`, 3 `limits { body S }`
+	Form int    `json:"form,omitempty"`
+	Size string `json:"size,omitempty"`
+	// site: consumer 0 proxy, 1 buffering proxy, 2 fastcgi (Limit, BodyLen, Chunked as above)
+	Consumer int `json:"consumer,omitempty"`
+	// listener: per site read, header, write, idle (set?, ns) and the header-size limit; Live = through
+	// a Casketfile (timeouts / limits directives) and casket.Start instead of hand-built configs
+	Sites [][9]int64 `json:"sites,omitempty"`
+	Live  bool       `json:"live,omitempty"`
+	// hdr431: Limit = header limit, ReqBytes = size of the request's header block
+	ReqBytes int `json:"reqbytes,omitempty"`
 }
 
 type scriptReader struct {
@@ -104,6 +131,18 @@ func compile(mids []httpserver.Middleware, inner httpserver.Handler) httpserver.
 func c17Run(in0 interface{}) Result {
 	in := in0.(*c17In)
 	switch in.Kind {
+	case "read64":
+		return c17RunRead64(in)
+	case "count":
+		return c17RunCount(in)
+	case "parse":
+		return c17RunParse(in)
+	case "site":
+		return c17RunSite(in)
+	case "listener":
+		return c17RunListener(in)
+	case "hdr431":
+		return c17RunHdr431(in)
 	case "read":
 		var sb strings.Builder
 		sb.WriteString("limits {\n")
@@ -268,8 +307,24 @@ func c17Run(in0 interface{}) Result {
 		h := compile(mids, handlerFunc(func(w http.ResponseWriter, r *http.Request) (int, error) { return 404, nil }))
 		req := httptest.NewRequest("POST", "http://example.test/up", &scriptReader{data: bodyOf(in.BodyLen), script: append([]int(nil), in.Script...), eofd: in.EOFD})
 		req.ContentLength = -1
-		status, _ := h.ServeHTTP(httptest.NewRecorder(), req)
 		over := int64(in.BodyLen) > lim
+		// a reader that stops making progress would keep the transport copying forever
+		if c17Stuck >= 2 {
+			return Result{Term: "(CStatus false 0%Z)", Obs: "skipped: earlier cases never returned", Class: "status:stuck", Sig: fmt.Sprintf("status:over=%v", over), Direct: "proxied upload never returned (earlier cases hung)"}
+		}
+		done := make(chan int, 1)
+		go func() {
+			st, _ := h.ServeHTTP(httptest.NewRecorder(), req)
+			done <- st
+		}()
+		var status int
+		select {
+		case status = <-done:
+		case <-time.After(10 * time.Second):
+			c17Stuck++
+			backend.CloseClientConnections() // else the deferred Close waits for the stuck upload
+			return Result{Term: "(CStatus false 0%Z)", Obs: "handler did not return within 10s", Class: "status:stuck", Sig: fmt.Sprintf("status:over=%v", over), Direct: "proxied upload: handler did not return within 10s"}
+		}
 		return Result{Term: cApp("CStatus", cBool(over), cZ(int64(status))), Obs: status, Sig: fmt.Sprintf("status:over=%v", over), Nontrivial: over, Class: fmt.Sprintf("status:over=%v", over)}
 	}
 	panic("bad kind " + in.Kind)
@@ -388,13 +443,225 @@ func c17Gen(r *Rand, tier string) []interface{} {
 		}
 		out = append(out, &c17In{Kind: "status", Scopes: []c17Scope{{Path: "/", Limit: lim}}, BodyLen: bl, EOFD: r.Bool(), Script: []int{r.Range(1, 700), r.Range(1, 700)}})
 	}
+	out = append(out, c17GenDeep(r, tier)...)
+	return out
+}
+
+func c17GenDeep(r *Rand, tier string) []interface{} {
+	var out []interface{}
+	nR64, nCount, nParse, nListen, nLive := 300, 300, 450, 350, 120
+	siteLimits := []int64{1, 10, 5000}
+	if tier == "thorough" {
+		nR64, nCount, nParse, nListen, nLive = 4000, 4000, 6000, 5000, 1200
+		siteLimits = []int64{1, 2, 10, 100, 4095, 4096, 5000, 32768, 32769, 70000, 300000}
+	}
+	const maxI = int64(math.MaxInt64)
+	bufsFor := func(n int) []int {
+		var b []int
+		for k := 0; k < n; k++ {
+			switch {
+			case r.Chance(5):
+				b = append(b, 0)
+			case r.Chance(50):
+				b = append(b, r.Range(1, 4))
+			default:
+				b = append(b, r.Range(1, 64))
+			}
+		}
+		return b
+	}
+	// ---- MaxBytesReader with any int64 limit, honest scripted reader ----
+	for i := 0; i < nR64; i++ {
+		in := &c17In{Kind: "read64", BodyLen: r.Range(0, 40), EOFD: r.Bool()}
+		switch c := r.Intn(100); {
+		case c < 35: // around the body length
+			in.Limit = int64(in.BodyLen + r.Range(-3, 3))
+		case c < 45:
+			in.Limit = maxI
+		case c < 60:
+			in.Limit = maxI - int64(r.Range(1, 5))
+		case c < 70:
+			in.Limit = int64(1)<<uint(r.Range(31, 62)) + int64(r.Range(-2, 2))
+		case c < 80:
+			in.Limit = -int64(r.Range(1, 4))
+		case c < 85:
+			in.Limit = math.MinInt64 + int64(r.Range(0, 2))
+		case c < 90:
+			in.Limit = 0
+		default:
+			in.Limit = int64(r.Range(1, 60))
+		}
+		for k := r.Intn(5); k > 0; k-- {
+			in.Script = append(in.Script, r.Range(0, 9))
+		}
+		in.Bufs = bufsFor(in.BodyLen + 3)
+		out = append(out, in)
+	}
+	// ---- the same with a reader that claims counts: boundary at 2^63-2 / 2^63-1 ----
+	for i := 0; i < nCount; i++ {
+		in := &c17In{Kind: "count"}
+		switch c := r.Intn(100); {
+		case c < 12:
+			in.Limit = maxI
+		case c < 50:
+			in.Limit = maxI - int64(r.Range(1, 6))
+		case c < 65:
+			in.Limit = int64(1)<<uint(r.Range(20, 62)) + int64(r.Range(-3, 3))
+		case c < 72:
+			in.Limit = -int64(r.Range(1, 3))
+		case c < 77:
+			in.Limit = 0
+		default:
+			in.Limit = int64(r.Range(1, 100))
+		}
+		// claims: a few parts that add up to about the limit (when it is positive)
+		na := r.Range(0, 5)
+		remaining := in.Limit
+		if remaining < 0 {
+			remaining = int64(r.Range(0, 50))
+		}
+		remaining += int64(r.Range(-3, 3))
+		for k := 0; k < na; k++ {
+			var c int64
+			switch {
+			case remaining <= 0 || r.Chance(15):
+				c = int64(r.Range(0, 5))
+			case k == na-1 || r.Chance(30):
+				c = remaining
+			case r.Chance(10):
+				c = maxI
+			default:
+				c = int64(r.U64() % uint64(remaining+1))
+			}
+			if c < 0 {
+				c = 0
+			}
+			if remaining >= c {
+				remaining -= c
+			} else {
+				remaining = 0
+			}
+			e := int64(0)
+			if r.Chance(8) {
+				e = []int64{1, 3}[r.Intn(2)]
+			}
+			in.Answers = append(in.Answers, [2]int64{c, e})
+		}
+		in.Bufs = bufsFor(na + r.Range(1, 4))
+		out = append(out, in)
+	}
+	// ---- size strings ----
+	unitsU := []string{"", "B", "KB", "MB", "GB", "b", "kb", "Kb", "mB", "gb", "TB", "K", "KiB", " KB", "kB "}
+	mults := map[string]int64{"": 1, "B": 1, "KB": 1024, "MB": 1 << 20, "GB": 1 << 30}
+	for i := 0; i < nParse; i++ {
+		in := &c17In{Kind: "parse", Form: r.Intn(4)}
+		u := unitsU[r.Intn(len(unitsU))]
+		if r.Chance(60) {
+			u = unitsU[r.Intn(10)]
+		}
+		var num string
+		switch c := r.Intn(100); {
+		case c < 25:
+			num = strconv.Itoa(r.Range(0, 3000))
+		case c < 55: // around the largest number whose product fits int64, and one bit beyond
+			m := mults[strings.ToUpper(u)]
+			if m == 0 {
+				m = 1
+			}
+			b := new(big.Int).Div(new(big.Int).Lsh(big.NewInt(1), uint(63+r.Intn(2))), big.NewInt(m))
+			b.Add(b, big.NewInt(int64(r.Range(-3, 3))))
+			num = b.String()
+		case c < 65: // products that wrap to a small positive value: k * 2^64 / m + small
+			m := mults[strings.ToUpper(u)]
+			if m <= 1 {
+				m, u = 1024, "KB"
+			}
+			b := new(big.Int).Div(new(big.Int).Lsh(big.NewInt(int64(r.Range(1, 3))), 64), big.NewInt(m))
+			b.Add(b, big.NewInt(int64(r.Range(0, 4))))
+			if b.IsInt64() {
+				num = b.String()
+			} else {
+				num = "18014398509481985"
+			}
+		case c < 72:
+			num = new(big.Int).Add(new(big.Int).Lsh(big.NewInt(1), uint(r.Range(62, 66))), big.NewInt(int64(r.Range(-2, 2)))).String()
+		case c < 80:
+			num = []string{"+", "-"}[r.Intn(2)] + strconv.Itoa(r.Range(0, 50))
+		case c < 84: // negative numbers whose product wraps to a positive value
+			num = "-" + new(big.Int).Sub(new(big.Int).Lsh(big.NewInt(1), 34), big.NewInt(int64(r.Range(0, 3)))).String()
+			u = "GB"
+		case c < 90:
+			num = []string{"", "0x10", "1_0", "1e3", "1.5", "٣", "5ſ", "5\u212a", "--1", "+-1", "1 0", "00012", "+", "-"}[r.Intn(14)]
+		default:
+			num = strconv.FormatUint(r.U64()>>uint(r.Intn(64)), 10)
+		}
+		in.Size = num + u
+		if in.Form == 1 && in.Size == "" {
+			in.Size = "0" // `header ""` is taken as "no header limit given", not as a size
+		}
+		out = append(out, in)
+	}
+	// ---- whole listener: every merged field at once ----
+	durs := []int64{0, 1, int64(time.Millisecond), int64(time.Second), int64(10 * time.Second), int64(time.Minute), int64(5 * time.Minute), int64(time.Hour)}
+	hsizes := []int64{0, 0, 1, 512, 4096, 1 << 20, 1 << 31}
+	mkSites := func() [][9]int64 {
+		var ss [][9]int64
+		n := r.Range(1, 5)
+		same := r.Chance(15)
+		for j := 0; j < n; j++ {
+			var s [9]int64
+			for f := 0; f < 4; f++ {
+				if r.Chance(65) {
+					s[2*f], s[2*f+1] = 1, durs[r.Intn(len(durs))]
+				}
+			}
+			if same { // `timeouts X`: all four set to one value
+				v := durs[r.Intn(len(durs))]
+				for f := 0; f < 4; f++ {
+					s[2*f], s[2*f+1] = 1, v
+				}
+			}
+			s[8] = hsizes[r.Intn(len(hsizes))]
+			ss = append(ss, s)
+		}
+		return ss
+	}
+	for i := 0; i < nListen; i++ {
+		out = append(out, &c17In{Kind: "listener", Sites: mkSites()})
+	}
+	for i := 0; i < nLive; i++ {
+		out = append(out, &c17In{Kind: "listener", Live: true, Sites: mkSites()})
+	}
+	// ---- real sites: limit-1, limit, limit+1, a bit more, much more; both framings; three consumers ----
+	for _, lim := range siteLimits {
+		for consumer := 0; consumer < 3; consumer++ {
+			for _, chunked := range []bool{false, true} {
+				lens := []int{int(lim) - 1, int(lim), int(lim) + 1, int(lim) + r.Range(2, 3000), int(lim) + 400000 + r.Range(0, 5000)}
+				if tier == "thorough" {
+					lens = append(lens, 0, int(lim)+2, int(lim)+100000, r.Range(0, int(lim)))
+				}
+				for _, n := range lens {
+					if n < 0 {
+						n = 0
+					}
+					out = append(out, &c17In{Kind: "site", Consumer: consumer, Chunked: chunked, Limit: lim, BodyLen: n})
+				}
+			}
+		}
+	}
+	// ---- header-size limit as enforced by the listener ----
+	for _, h := range []int64{1, 1024, 8192} {
+		for _, d := range []int{-4000, -1, 0, 1, 2, 5000} {
+			out = append(out, &c17In{Kind: "hdr431", Limit: h, ReqBytes: int(h) + 4096 + d})
+		}
+	}
 	return out
 }
 
 func init() {
 	register(&Property{
 		ID: "C17", Imports: "V.Lib V.C17_Model", Judge: "judge",
-		Rule: "cases = real limits directive (parse+sort+Limit.ServeHTTP+maxBytesReader) on scripted readers, NewServer merges, proxy 413; non-trivial = read that ended in EOF/too-large under a non-empty table, merge with >=2 sites setting the value, over-limit proxied upload; distinct = distinct Coq case term",
+		Rule: "cases = real limits directive (parse+sort+Limit.ServeHTTP+maxBytesReader) on scripted readers; MaxBytesReader directly with any int64 limit on scripted and count-claiming readers; size strings through the directive's setup; NewServer merges per field, on whole hand-built site groups and on Casketfiles started with casket.Start; proxy 413 in-process; real sites over loopback (proxy / buffering proxy / fastcgi x Content-Length / chunked x lengths around the limit, pipelined follow-up); 431 at the merged header limit. non-trivial = read that ended in EOF/too-large under a non-empty table, read64 that ended in an error/panic, count with a non-empty script, accepted size string, merge with >=2 sites setting a positive value, over-limit upload, over-limit header; distinct = distinct Coq case term",
 		Gen: c17Gen,
 		Decode: func(raw json.RawMessage) (interface{}, error) {
 			in := &c17In{}
@@ -402,4 +669,574 @@ func init() {
 		},
 		Run: c17Run,
 	})
+}
+
+// ---------------------------------------------------------------------------------------------
+// deepened cases: int64 boundary of MaxBytesReader, size strings, real sites, whole listener
+
+// c17Liar is an io.ReadCloser that only CLAIMS byte counts (it ignores p), so that limits near 2^63
+// can be approached without that many bytes.
+type c17Liar struct {
+	answers  [][2]int64
+	consumed int
+}
+
+var errC17Other = errors.New("c17: scripted reader error")
+
+func (l *c17Liar) Read(p []byte) (int, error) {
+	if l.consumed >= len(l.answers) {
+		return 0, io.EOF
+	}
+	a := l.answers[l.consumed]
+	l.consumed++
+	switch a[1] {
+	case 1:
+		return int(a[0]), io.EOF
+	case 3:
+		return int(a[0]), errC17Other
+	}
+	return int(a[0]), nil
+}
+func (l *c17Liar) Close() error { return nil }
+
+func c17ErrCode(err error) int {
+	switch err {
+	case nil:
+		return 0
+	case io.EOF:
+		return 1
+	case httpserver.ErrMaxBytesExceeded:
+		return 2
+	}
+	return 3
+}
+
+func c17LimitClass(l int64) string {
+	switch {
+	case l == math.MaxInt64:
+		return "limit-maxint64"
+	case l < 0:
+		return "limit-negative"
+	case l == 0:
+		return "limit-zero"
+	case l >= math.MaxInt64-4:
+		return "limit-near-maxint64"
+	case l >= 1<<40:
+		return "limit-huge"
+	}
+	return "limit-small"
+}
+
+func c17RunRead64(in *c17In) Result {
+	body := bodyOf(in.BodyLen)
+	rd := limits.MaxBytesReader(httptest.NewRecorder(), &scriptReader{data: body, script: append([]int(nil), in.Script...), eofd: in.EOFD}, in.Limit)
+	var got []byte
+	code, ecode, neg := 0, 0, int64(0)
+	func() {
+		defer func() {
+			if r := recover(); r != nil {
+				code = 1
+			}
+		}()
+		for _, m := range in.Bufs {
+			p := make([]byte, m)
+			n, err := rd.Read(p)
+			if n < 0 {
+				code, neg = 2, int64(n)
+				return
+			}
+			got = append(got, p[:n]...)
+			if err != nil {
+				ecode = c17ErrCode(err)
+				return
+			}
+		}
+	}()
+	if code != 0 {
+		got, ecode = nil, 0
+	}
+	term := cApp("CRead64", cZ(in.Limit), cNat(in.BodyLen), cNatList(in.Script), cBool(in.EOFD), cNatList(in.Bufs),
+		cN(uint64(code)), cBytes(got), cN(uint64(ecode)), cZ(neg))
+	cl := c17LimitClass(in.Limit)
+	return Result{Term: term, Obs: map[string]interface{}{"outcome": []string{"returned", "panic", "negative-count"}[code], "delivered_len": len(got), "err": ecode, "neg": neg},
+		Sig: "read64:" + cl, Class: fmt.Sprintf("read64:%s:%d", cl, code), Nontrivial: code != 0 || ecode != 0}
+}
+
+func c17RunCount(in *c17In) Result {
+	liar := &c17Liar{answers: in.Answers}
+	rd := limits.MaxBytesReader(httptest.NewRecorder(), liar, in.Limit)
+	var outs []string
+	var obs [][2]int64
+	code := 0
+	func() {
+		defer func() {
+			if r := recover(); r != nil {
+				code = 1
+			}
+		}()
+		for _, m := range in.Bufs {
+			n, err := rd.Read(make([]byte, m))
+			obs = append(obs, [2]int64{int64(n), int64(c17ErrCode(err))})
+			outs = append(outs, cPair(cZ(int64(n)), cN(uint64(c17ErrCode(err)))))
+		}
+	}()
+	if code != 0 {
+		outs, obs = nil, nil
+	}
+	var bufs []int64
+	for _, m := range in.Bufs {
+		bufs = append(bufs, int64(m))
+	}
+	var ans []string
+	for _, a := range in.Answers {
+		ans = append(ans, cPair(cZ(a[0]), cN(uint64(a[1]))))
+	}
+	term := cApp("CCount", cZ(in.Limit), cZList(bufs), cList(ans), cN(uint64(code)), cList(outs), cNat(liar.consumed))
+	cl := c17LimitClass(in.Limit)
+	return Result{Term: term, Obs: map[string]interface{}{"panic": code == 1, "reads": obs, "answers_consumed": liar.consumed},
+		Sig: "count:" + cl, Class: fmt.Sprintf("count:%s:%d", cl, code), Nontrivial: len(in.Answers) > 0}
+}
+
+// c17Denote reads a size string the way the property's spec does (sign, digit run, unit) with
+// unbounded integers; ok=false when it denotes nothing.
+func c17Denote(s string) (prod *big.Int, ok bool) {
+	b := []byte(s)
+	for i, c := range b {
+		if c >= 'a' && c <= 'z' {
+			b[i] = c - 32
+		}
+	}
+	neg := false
+	if len(b) > 0 && (b[0] == '+' || b[0] == '-') {
+		neg = b[0] == '-'
+		b = b[1:]
+	}
+	i := 0
+	for i < len(b) && b[i] >= '0' && b[i] <= '9' {
+		i++
+	}
+	if i == 0 {
+		return nil, false
+	}
+	mult, found := map[string]int64{"KB": 1024, "MB": 1 << 20, "GB": 1 << 30, "B": 1, "": 1}[string(b[i:])]
+	if !found {
+		return nil, false
+	}
+	n, _ := new(big.Int).SetString(string(b[:i]), 10)
+	if neg {
+		n.Neg(n)
+	}
+	return n.Mul(n, big.NewInt(mult)), true
+}
+
+func c17RunParse(in *c17In) Result {
+	q := "\"" + in.Size + "\""
+	var text string
+	switch in.Form {
+	case 0:
+		text = "limits " + q + "\n"
+	case 1:
+		text = "limits {\n header " + q + "\n}\n"
+	case 2:
+		text = "limits {\n body /p " + q + "\n}\n"
+	default:
+		text = "limits {\n body " + q + "\n}\n"
+	}
+	cfg, err := setupDirective("limits", text)
+	ok := err == nil
+	var h, b int64
+	if ok {
+		h = cfg.Limits.MaxRequestHeaderSize
+		if len(cfg.Limits.MaxRequestBodySizes) > 0 {
+			b = cfg.Limits.MaxRequestBodySizes[0].Limit
+		}
+	}
+	form := in.Form
+	if form == 3 {
+		form = 2
+	}
+	sig := "parse:plain"
+	if prod, den := c17Denote(in.Size); den && !prod.IsInt64() {
+		sig = "parse:product-overflows-int64"
+	}
+	cls := sig + ":rejected"
+	if ok {
+		cls = sig + ":accepted"
+	}
+	return Result{Term: cApp("CParse", cN(uint64(form)), cStr(in.Size), cBool(ok), cZ(h), cZ(b)),
+		Obs: map[string]interface{}{"accepted": ok, "header": h, "body": b}, Sig: sig, Class: cls, Nontrivial: ok}
+}
+
+// ---- real sites over loopback ----
+
+type c17BackendRec struct {
+	n      int
+	prefix bool
+}
+
+var c17Stuck int // uploads that were never answered (a reader that stops making progress)
+
+var (
+	c17Once     sync.Once
+	c17Backends [2]*httptest.Server
+	c17Mu       sync.Mutex
+	c17Seen     = map[string]c17BackendRec{}
+	c17Seq      int
+)
+
+func c17SiteSetup() {
+	c17Once.Do(func() {
+		c13Setup() // scripted FastCGI responder + document root of harness/c13.go
+		h := http.HandlerFunc(func(w http.ResponseWriter, r *http.Request) {
+			b, _ := io.ReadAll(r.Body)
+			want := bodyOf(len(b))
+			c17Mu.Lock()
+			c17Seen[r.Header.Get("X-Case")] = c17BackendRec{len(b), bytes.Equal(b, want)}
+			c17Mu.Unlock()
+			w.WriteHeader(200)
+			fmt.Fprintf(w, "got %d", len(b))
+		})
+		c17Backends[0] = httptest.NewServer(h)
+		c17Backends[1] = httptest.NewServer(h)
+	})
+}
+
+// the scripted responder's reply: one stdout record with a 200 response, end of stdout, end request
+func c17FcgiReply() []byte {
+	body := []byte("Status: 200 OK\r\nContent-Type: text/plain\r\n\r\nok")
+	out := []byte{1, 6, 0, 1, byte(len(body) >> 8), byte(len(body)), 0, 0}
+	out = append(out, body...)
+	out = append(out, 1, 6, 0, 1, 0, 0, 0, 0)
+	out = append(out, 1, 3, 0, 1, 0, 8, 0, 0, 0, 0, 0, 0, 0, 0, 0, 0)
+	return out
+}
+
+// stdin payload (record type 5) of a captured FastCGI request
+func c17FcgiStdin(raw []byte) []byte {
+	var stdin []byte
+	for len(raw) >= 8 {
+		cl := int(raw[4])<<8 | int(raw[5])
+		end := 8 + cl + int(raw[6])
+		if end > len(raw) {
+			break
+		}
+		if raw[1] == 5 {
+			stdin = append(stdin, raw[8:8+cl]...)
+		}
+		raw = raw[end:]
+	}
+	return stdin
+}
+
+func c17SiteText(limit int64) string {
+	return fmt.Sprintf("root %s\nlimits {\n body /up %d\n body /buf %d\n body /a.php %d\n}\n"+
+		"proxy /up %s\nproxy /buf %s %s {\n try_duration 300ms\n try_interval 20ms\n}\n"+
+		"fastcgi / %s php {\n read_timeout 5s\n send_timeout 5s\n connect_timeout 5s\n}\nstatus 204 /ping\n",
+		c13Root, limit, limit, limit, c17Backends[0].URL, c17Backends[0].URL, c17Backends[1].URL, c13Srv.ln.Addr().String())
+}
+
+func c17RunSite(in *c17In) Result {
+	c17SiteSetup()
+	fail := func(msg string) Result {
+		return Result{Term: "(CStatus false 0%Z)", Obs: msg, Class: "site:setup-error", Sig: "site:setup-error", Direct: msg}
+	}
+	if c17Stuck >= 2 {
+		r := fail("site case skipped: earlier uploads were never answered")
+		r.Sig, r.Class = "site:stuck", "site:stuck"
+		return r
+	}
+	site, err := getSite(c17SiteText(in.Limit))
+	if err != nil {
+		return fail("site start: " + err.Error())
+	}
+	c17Mu.Lock()
+	c17Seq++
+	id := fmt.Sprintf("c17-%d", c17Seq)
+	c17Mu.Unlock()
+	target := []string{"/up", "/buf", "/a.php"}[in.Consumer]
+	var fseq int
+	if in.Consumer == 2 {
+		c13Srv.mu.Lock()
+		c13Srv.seq++
+		fseq = c13Srv.seq
+		c13Srv.resp = c17FcgiReply()
+		c13Srv.mu.Unlock()
+	}
+	body := bodyOf(in.BodyLen)
+	var sb bytes.Buffer
+	fmt.Fprintf(&sb, "POST %s HTTP/1.1\r\nHost: %s\r\nX-Case: %s\r\nContent-Type: application/octet-stream\r\n", target, site.addr, id)
+	if in.Chunked {
+		sb.WriteString("Transfer-Encoding: chunked\r\n\r\n")
+		step := 1 + in.BodyLen/7
+		if step > 8000 {
+			step = 8000
+		}
+		for i := 0; i < len(body); i += step {
+			j := i + step
+			if j > len(body) {
+				j = len(body)
+			}
+			fmt.Fprintf(&sb, "%x\r\n", j-i)
+			sb.Write(body[i:j])
+			sb.WriteString("\r\n")
+		}
+		sb.WriteString("0\r\n\r\n")
+	} else {
+		fmt.Fprintf(&sb, "Content-Length: %d\r\n\r\n", len(body))
+		sb.Write(body)
+	}
+	// the pipelined follow-up on the same connection
+	fmt.Fprintf(&sb, "GET /ping HTTP/1.1\r\nHost: %s\r\n\r\n", site.addr)
+	conn, err := net.DialTimeout("tcp", site.addr, 2*time.Second)
+	if err != nil {
+		return fail("dial: " + err.Error())
+	}
+	defer conn.Close()
+	conn.SetDeadline(time.Now().Add(10 * time.Second))
+	go conn.Write(sb.Bytes())
+	br := bufio.NewReader(conn)
+	status, followup := -1, -2
+	r1, err := http.ReadResponse(br, &http.Request{Method: "POST"})
+	if ne, ok := err.(net.Error); ok && ne.Timeout() {
+		c17Stuck++
+		r := fail("upload was not answered within 10s")
+		r.Sig, r.Class = "site:stuck", "site:stuck"
+		return r
+	}
+	if err == nil {
+		io.Copy(io.Discard, r1.Body)
+		r1.Body.Close()
+		status = r1.StatusCode
+		if r2, err := http.ReadResponse(br, &http.Request{Method: "GET"}); err == nil {
+			followup = r2.StatusCode
+			r2.Body.Close()
+		}
+	}
+	conn.Close()
+	// what reached the backend
+	backend, prefix := int64(-1), true
+	over := int64(in.BodyLen) > in.Limit
+	wait := 2 * time.Second
+	if in.Consumer == 1 && over && status == 400 {
+		wait = 40 * time.Millisecond // the buffering proxy gives up before it contacts anyone
+	}
+	deadline := time.Now().Add(wait)
+	if in.Consumer == 2 {
+		tm := time.After(wait)
+	poll:
+		for {
+			select {
+			case c := <-c13Srv.got:
+				if c.seq == fseq {
+					stdin := c17FcgiStdin(c.raw)
+					backend, prefix = int64(len(stdin)), bytes.Equal(stdin, bodyOf(len(stdin)))
+					break poll
+				}
+			case <-tm:
+				break poll
+			}
+		}
+	} else {
+		for {
+			c17Mu.Lock()
+			rec, ok := c17Seen[id]
+			delete(c17Seen, id)
+			c17Mu.Unlock()
+			if ok {
+				backend, prefix = int64(rec.n), rec.prefix
+				break
+			}
+			if time.Now().After(deadline) {
+				break
+			}
+			time.Sleep(2 * time.Millisecond)
+		}
+	}
+	kind := []string{"proxy", "proxy-buffered", "fastcgi"}[in.Consumer]
+	framing := "content-length"
+	if in.Chunked {
+		framing = "chunked"
+	}
+	ow := "within"
+	if over {
+		ow = "over"
+	}
+	sig := fmt.Sprintf("site:%s:%s:%s", kind, framing, ow)
+	// the known deviations: the body is cut correctly and nothing else is wrong, only the status
+	// the client sees is not 413
+	if over && prefix && backend <= in.Limit && (followup == 204 || followup == -2) {
+		switch {
+		case in.Consumer == 0 && !in.Chunked && status == 502 && backend == in.Limit:
+			sig = "site:proxy:content-length:over-limit-answered-502"
+		case in.Consumer == 1 && status == 400 && backend == -1:
+			sig = "site:proxy-buffered:over-limit-answered-400"
+		case in.Consumer == 2 && status == 200 && backend == in.Limit:
+			sig = "site:fastcgi:over-limit-truncated-body-answered-200"
+		}
+	}
+	term := cApp("CSite", cN(uint64(in.Consumer)), cBool(in.Chunked), cZ(in.Limit), cNat(in.BodyLen), cZ(int64(status)), cZ(backend), cBool(prefix), cZ(int64(followup)))
+	return Result{Term: term, Obs: map[string]interface{}{"status": status, "backend_received": backend, "backend_prefix_ok": prefix, "pipelined_followup": followup},
+		Sig: sig, Class: fmt.Sprintf("site:%s:%s:%s", kind, framing, ow), Nontrivial: over}
+}
+
+func c17RunHdr431(in *c17In) Result {
+	site, err := getSite(fmt.Sprintf("limits {\n header %d\n}\nstatus 204 /ping\n", in.Limit))
+	if err != nil {
+		return Result{Term: "(CStatus false 0%Z)", Obs: "site start: " + err.Error(), Class: "hdr431:setup-error", Sig: "hdr431:setup-error", Direct: "site start: " + err.Error()}
+	}
+	head := "GET /ping HTTP/1.1\r\nHost: " + site.addr + "\r\nConnection: close\r\nX-Pad: "
+	tail := "\r\n\r\n"
+	pad := in.ReqBytes - len(head) - len(tail)
+	if pad < 0 {
+		pad = 0
+	}
+	req := head + strings.Repeat("p", pad) + tail
+	status := -1
+	if conn, err := net.DialTimeout("tcp", site.addr, 2*time.Second); err == nil {
+		conn.SetDeadline(time.Now().Add(5 * time.Second))
+		go conn.Write([]byte(req))
+		if r, err := http.ReadResponse(bufio.NewReader(conn), nil); err == nil {
+			status = r.StatusCode
+			r.Body.Close()
+		}
+		conn.Close()
+	}
+	if status == 204 {
+		status = 200
+	}
+	over := int64(len(req)) > in.Limit+4096
+	return Result{Term: cApp("CHdr431", cZ(in.Limit), cZ(int64(len(req))), cZ(int64(status))), Obs: map[string]interface{}{"status": status, "header_bytes": len(req)},
+		Sig: fmt.Sprintf("hdr431:over=%v", over), Class: fmt.Sprintf("hdr431:over=%v", over), Nontrivial: over}
+}
+
+// ---- the whole listener ----
+
+func c17Dur(ns int64) string {
+	if ns == 0 {
+		return "none"
+	}
+	return time.Duration(ns).String()
+}
+
+func c17ServerTerm(s *http.Server) string {
+	return fmt.Sprintf("{| sv_read := %s; sv_rhdr := %s; sv_write := %s; sv_idle := %s; sv_maxhdr := %s |}",
+		cZ(int64(s.ReadTimeout)), cZ(int64(s.ReadHeaderTimeout)), cZ(int64(s.WriteTimeout)), cZ(int64(s.IdleTimeout)), cZ(int64(s.MaxHeaderBytes)))
+}
+
+func c17RunListener(in *c17In) Result {
+	fail := func(msg string) Result {
+		return Result{Term: "(CStatus false 0%Z)", Obs: msg, Class: "listener:setup-error", Sig: "listener:setup-error", Direct: msg}
+	}
+	dsrv, err := httpserver.NewServer("127.0.0.1:0", []*httpserver.SiteConfig{{TLS: new(caskettls.Config)}})
+	if err != nil {
+		return fail("default NewServer: " + err.Error())
+	}
+	var got *http.Server
+	if in.Live {
+		// Casketfile -> timeouts / limits directives -> site configs grouped by listener -> NewServer
+		var sb strings.Builder
+		for i, s := range in.Sites {
+			fmt.Fprintf(&sb, "http://s%d.test:0 {\n", i)
+			allSet := s[0] != 0 && s[2] != 0 && s[4] != 0 && s[6] != 0
+			if allSet && s[1] == s[3] && s[3] == s[5] && s[5] == s[7] && i%2 == 0 {
+				fmt.Fprintf(&sb, " timeouts %s\n", c17Dur(s[1]))
+			} else if s[0] != 0 || s[2] != 0 || s[4] != 0 || s[6] != 0 {
+				sb.WriteString(" timeouts {\n")
+				for f, name := range []string{"read", "header", "write", "idle"} {
+					if s[2*f] != 0 {
+						fmt.Fprintf(&sb, "  %s %s\n", name, c17Dur(s[2*f+1]))
+					}
+				}
+				sb.WriteString(" }\n")
+			}
+			if s[8] != 0 {
+				fmt.Fprintf(&sb, " limits {\n  header %d\n }\n", s[8])
+			}
+			sb.WriteString("}\n")
+		}
+		stopSite()
+		casket.Quiet = true
+		inst, err := casket.Start(casket.CasketfileInput{Contents: []byte(sb.String()), Filepath: "Casketfile", ServerTypeName: "http"})
+		if err != nil {
+			return fail("start: " + err.Error() + "\n" + sb.String())
+		}
+		srvs := inst.Servers()
+		if len(srvs) != 1 {
+			inst.Stop()
+			return fail(fmt.Sprintf("%d listeners for one port", len(srvs)))
+		}
+		hs, ok := c17ServerOf(srvs[0])
+		inst.Stop()
+		if !ok {
+			return fail("cannot reach the listener's http.Server")
+		}
+		got = hs.Server
+	} else {
+		var group []*httpserver.SiteConfig
+		for _, s := range in.Sites {
+			c := &httpserver.SiteConfig{TLS: new(caskettls.Config)}
+			c.Timeouts.ReadTimeoutSet, c.Timeouts.ReadTimeout = s[0] != 0, time.Duration(s[1])
+			c.Timeouts.ReadHeaderTimeoutSet, c.Timeouts.ReadHeaderTimeout = s[2] != 0, time.Duration(s[3])
+			c.Timeouts.WriteTimeoutSet, c.Timeouts.WriteTimeout = s[4] != 0, time.Duration(s[5])
+			c.Timeouts.IdleTimeoutSet, c.Timeouts.IdleTimeout = s[6] != 0, time.Duration(s[7])
+			c.Limits.MaxRequestHeaderSize = s[8]
+			group = append(group, c)
+		}
+		srv, err := httpserver.NewServer("127.0.0.1:0", group)
+		if err != nil {
+			return fail("NewServer: " + err.Error())
+		}
+		got = srv.Server
+	}
+	var sites []string
+	mixed, nset := false, 0
+	for f := 0; f < 5; f++ {
+		z, p := false, false
+		for _, s := range in.Sites {
+			set, v := true, s[8]
+			if f < 4 {
+				set, v = s[2*f] != 0, s[2*f+1]
+			}
+			if set && v == 0 && f < 4 {
+				z = true
+			}
+			if set && v > 0 {
+				p = true
+				nset++
+			}
+		}
+		if z && p {
+			mixed = true
+		}
+	}
+	for _, s := range in.Sites {
+		tv := func(i int) string { return cPair(cBool(s[i] != 0), cZ(s[i+1])) }
+		sites = append(sites, fmt.Sprintf("{| s_read := %s; s_rhdr := %s; s_write := %s; s_idle := %s; s_maxhdr := %s |}", tv(0), tv(2), tv(4), tv(6), cZ(s[8])))
+	}
+	path := "built"
+	if in.Live {
+		path = "live"
+	}
+	sig := "listener:" + path + ":plain"
+	if mixed {
+		sig = "listener:" + path + ":explicit-none-with-positive"
+	}
+	return Result{Term: cApp("CListener", c17ServerTerm(dsrv.Server), cList(sites), c17ServerTerm(got)),
+		Obs: map[string]interface{}{"read": got.ReadTimeout.String(), "header": got.ReadHeaderTimeout.String(), "write": got.WriteTimeout.String(), "idle": got.IdleTimeout.String(), "max_header_bytes": got.MaxHeaderBytes},
+		Sig: sig, Class: sig, Nontrivial: nset >= 2}
+}
+
+var _ = sort.Strings
+var _ = strconv.Itoa
+
+// c17ServerOf reaches the *httpserver.Server behind a started listener (casket.ServerListener
+// keeps it in an unexported field and offers no accessor).
+func c17ServerOf(sl casket.ServerListener) (*httpserver.Server, bool) {
+	v := reflect.ValueOf(&sl).Elem().FieldByName("server")
+	if !v.IsValid() {
+		return nil, false
+	}
+	v = reflect.NewAt(v.Type(), unsafe.Pointer(v.UnsafeAddr())).Elem()
+	hs, ok := v.Interface().(*httpserver.Server)
+	return hs, ok
 }
